@@ -9,6 +9,7 @@ package interp
 
 import (
 	"bytes"
+	"go/types"
 	"maps"
 	"math"
 	"os"
@@ -120,14 +121,39 @@ func ext۰bytes۰Equal(fr *frame, args []value) value {
 	// func Equal(a, b []byte) bool
 	a := args[0].([]value)
 	b := args[1].([]value)
-	return slices.Equal(a, b)
+	if len(a) != len(b) {
+		return false
+	}
+	anySym := false
+	for k := range a {
+		if isSym(a[k]) || isSym(b[k]) {
+			anySym = true
+		}
+	}
+	if !anySym {
+		return slices.Equal(a, b)
+	}
+	i := fr.i
+	eq := i.tt.True
+	for k := range a {
+		at, _ := i.termOf(a[k])
+		bt, _ := i.termOf(b[k])
+		eq = i.tt.And(eq, i.tt.Eq(at, bt))
+	}
+	return i.mkval(eq, types.Bool)
 }
 
 func ext۰bytes۰IndexByte(fr *frame, args []value) value {
 	// func IndexByte(s []byte, c byte) int
 	s := args[0].([]value)
+	if isSym(args[1]) {
+		panic(engineError("bytes.IndexByte with a symbolic byte is not modelled"))
+	}
 	c := args[1].(byte)
 	for i, b := range s {
+		if isSym(b) {
+			panic(engineError("bytes.IndexByte over symbolic bytes is not modelled"))
+		}
 		if b.(byte) == c {
 			return i
 		}
